@@ -18,6 +18,9 @@
 //	             callback order are whatever the factory produced), envl.Lab.ColumnChain mirrors
 //	             with/without the old-container wrapper and the hmac processor (v1), every Translator
 //	             decrypt operation in both call styles; with and without callbacks configured.
+//	sessions     whole sessions through the real MySQL and PostgreSQL proxies (response handlers
+//	             included) over {protocol x column configuration x result shape x stored value x
+//	             reader}: see sessions.go (own space, oracle and finding keys C15/session/...).
 //
 // Oracle. Positives: the recording callback ran at least once and its sequence number is smaller
 // than the one the harness draws right after the call returns; on the factory chains additionally
@@ -614,6 +617,9 @@ func main() {
 	}
 	k := &checker{r: r, misses: map[string][]miss{}, totals: map[string]map[[6]string]int{}, stillValid: map[string]int{}}
 
+	if r.Replay != "" && sessionReplay(r, stores) { // replay files of the session phase (sessions.go)
+		r.Finish()
+	}
 	if r.Replay != "" {
 		var c caseT
 		r.LoadReplay(&c)
@@ -818,6 +824,14 @@ func main() {
 	k.report()
 	r.Set("damaged_records_still_opening_to_their_payload_admitted", k.stillValid)
 
+	// whole sessions through the real MySQL and PostgreSQL proxies (sessions.go); last: it switches
+	// the process-wide SQL dialect and re-initialises the crypto registry
+	if !r.Expired() {
+		sessionPhase(r, stores)
+	} else {
+		r.Capped("wall budget: session phase not run")
+	}
+
 	var pn []string
 	for _, p := range paths {
 		pn = append(pn, p.Name)
@@ -833,10 +847,11 @@ func main() {
 	}
 	r.Set("records_digest", fmt.Sprintf("%x", h.Sum(nil)[:8])) // equal across runs: keys and records are reproducible
 	r.Set("deliveries", len(jobs))
-	r.Rule("state = one value coming back from storage (per key store: every poison record of the history x {alone, after a search hash, 9 fills x 5 offsets}; foreign-store records; ordinary envelopes of every producer/form x 2 owners x {alone, embedded}; pseudo-random byte strings; every truncation and every single-bit flip of poison records); transition = that value delivered through one path (4 real proxy-factory chains, 4 Lab.ColumnChain mirrors on v1, 6 Translator decrypt operations) under one client identity with callbacks configured or not; distinct_nontrivial counts distinct (path, class, kind/form, key age, placement, alarm outcome, value outcome) tuples")
+	r.Rule("state = one value coming back from storage (per key store: every poison record of the history x {alone, after a search hash, 9 fills x 5 offsets}; foreign-store records; ordinary envelopes of every producer/form x 2 owners x {alone, embedded}; pseudo-random byte strings; every truncation and every single-bit flip of poison records); transition = that value delivered through one path (4 real proxy-factory chains, 4 Lab.ColumnChain mirrors on v1, 6 Translator decrypt operations) under one client identity with callbacks configured or not; distinct_nontrivial counts distinct (path, class, kind/form, key age, placement, alarm outcome, value outcome) tuples" + sessionRule)
 	r.Assume("Themis is replaced by the pure-Go stand-in /verif/shim/gothemis (AEAD assumption: any change to ciphertext, tag, nonce, context or key makes decryption fail)",
 		"values reach the factory-built chains without column info in the context, so the wire-format decoder/encoder subscribers of the proxies pass them through unchanged (wire encodings are the subject of the session-level checks)",
 		"base.OldContainerDetectionOn is a constant (true) in this tree: the factory chains always carry the OldContainerDetectorWrapper; the variant without it is covered through envl.Lab.ColumnChain on the v1 store only",
 		"pair and symmetric poison keys are rotated together (histories of 1, 2 and 3 keys of each kind); v1 key store without key cache")
+	r.Assume(sessionAssumptions...)
 	r.Finish()
 }
